@@ -34,7 +34,10 @@ def run(ctx):
     n = 16 if ctx.quick else 2000
     for it in range(n):
         if it % 2 == 0:
-            va, vb = impl.leaf_family(ctx, 2, pinv=0.3)
+            if it % 4 == 0:
+                (va, vb), unit = impl.scaled_family(ctx, 2, pinv=0.3)
+            else:
+                va, vb = impl.leaf_family(ctx, 2, pinv=0.3)
             A, B = impl.poly(va), impl.poly(vb)
             desc = {"A": va, "B": vb}
             key = (tuple(va), tuple(vb))
